@@ -357,9 +357,11 @@ def _enc_field(cat, f, v, k, force=False):
     return sw.tag(f.number, sw.wire_type(f.kind), pad) + sw.scalar_payload(f.kind, v)
 
 
-def spec_decode(cat, shape, buf):
+def spec_decode(cat, shape, buf, notes=None):
     """strict proto3 decoder: bytes -> canon.  Raises specwire.SpecDecodeError on malformed
-    input.  A known number with a non-fitting wire type goes to the unknown fields."""
+    input.  A known number with a non-fitting wire type goes to the unknown fields.
+    notes (list) receives "dup-message" when a singular message field occurs twice (the
+    reference merges the occurrences; this model keeps the last)."""
     s = cat.shapes[shape] if isinstance(shape, str) else shape
     by_number = {f.number: f for f in s.fields}
     vals = {}
@@ -390,11 +392,13 @@ def spec_decode(cat, shape, buf):
                     ek = sw.decode_scalar(f.key, wt2, p2)
                 elif n2 == 2:
                     if f.kind == "message" and wt2 == 2:
-                        ev = spec_decode(cat, f.msg, p2)
+                        if ev is not None and notes is not None:
+                            notes.append("dup-message")
+                        ev = spec_decode(cat, f.msg, p2, notes)
                     elif f.kind != "message" and wt2 == sw.wire_type(f.kind):
                         ev = _dec_enum(cat, f, sw.decode_scalar(f.kind, wt2, p2))
             if ev is None:
-                ev = spec_decode(cat, f.msg, SymBytes([]))
+                ev = spec_decode(cat, f.msg, SymBytes([]), notes)
             vals.setdefault(f.name, []).append((ek, ev))
             continue
         if f.wraps:
@@ -403,7 +407,9 @@ def spec_decode(cat, shape, buf):
                 if n2 == 1 and wt2 == sw.wire_type(f.wraps):
                     x = sw.decode_scalar(f.wraps, wt2, p2)
         elif f.kind == "message":
-            x = spec_decode(cat, f.msg, payload)
+            if f.label != "repeated" and f.name in vals and notes is not None:
+                notes.append("dup-message")
+            x = spec_decode(cat, f.msg, payload, notes)
         else:
             x = _dec_enum(cat, f, sw.decode_scalar(f.kind, wt, payload))
         if f.label == "repeated":
